@@ -8,6 +8,7 @@ import asyncio
 import copy
 import gc
 import inspect
+import pickle
 import random
 import re
 import weakref
@@ -23,7 +24,7 @@ COUNTS = dict(quick=1600, thorough=20000)
 CLASSES = flat.SYNC_CLASSES + flat.ASYNC_CLASSES
 TWO_CLASSES = ['Machine', 'LockedMachine', 'HierarchicalMachine', 'LockedHierarchicalMachine', 'AsyncMachine',
                'HierarchicalAsyncMachine']
-RULE = ('6 of 8 cases: one machine of a predefined class (all 12, round-robin; queued False/True and, for async '
+RULE = ('11 of 16 cases: one machine of a predefined class (all 12, round-robin; queued False/True and, for async '
         'classes, \'model\') built from a random flat configuration (C01 generator, 1-4 states, 1-3 events) of which '
         'a random part of the states/transitions is held back and added by add_states/add_transition operations in '
         'the history; a universe of 1-4 model objects, optionally one of them the machine itself, about a third of '
@@ -61,10 +62,15 @@ ASSUMPTIONS = ['remove_model is only called for registered models (an unregister
                'the model mirrors the raise, C10_graph_readd_raises, but not the broken machine afterwards)',
                'queue stream: an event whose callbacks perform >= 16 actions is not compared (nested payload numbering of '
                'QueueIO would be ambiguous)',
+               'copies: machines with per-model queues (async, queued=\'model\') are not copied (the copy keeps the old ids '
+               'as keys of _transition_queue_dict and raises KeyError on every trigger — reported); in graph classes, '
+               'after a copy, stale helpers of removed models are not called and removed models are not re-added (the '
+               'copy has no graph for them)',
                'garbage collection: the theorem is "no table keeps the key"; the collector is assumed and checked with '
-               'weakref + gc.collect() on every class (extra check gc_after_remove)',
+               'weakref + gc.collect() on every class and queue mode, on the original machine, on a pickle round trip and on '
+               'a deep copy of it (extra check gc_after_remove)',
                'Python runtime semantics of the recording callables']
-THEOREMS = ['C10_invariant', 'C10_frame', 'C10_dispatch', 'C10_late_model', 'C10_late_model_names', 'C10_add_twice', 'C10_add_twice_list', 'C10_in_call_repetition', 'C10_removed_list_pending',
+THEOREMS = ['C10_invariant', 'C10_frame', 'C10_dispatch', 'C10_late_model', 'C10_late_model_names', 'C10_add_twice', 'C10_add_twice_list', 'C10_in_call_repetition', 'C10_removed_list_pending', 'C10_copy', 'C10_own_initial', 'C10_own_initial_once',
             'C10_graph_readd_raises', 'C10_graph_readd_example',
             'C10_removed_tables', 'C10_removed', 'C10_removed_graph_key_refuted', 'C10_two_machines',
             'C10_two_machines_hsm_refuted', 'C10_example']
@@ -86,6 +92,8 @@ def gen(rng, i, tier):
         return gen_two(rng, i)
     if i % 8 == 3:
         return gen_queue(rng, i, tier)
+    if i % 16 == 5:
+        return gen_own(rng, i, tier)
     cname = CLASSES[(i - i // 8) % len(CLASSES)]
     lk, gr, hs, asy = class_flags(cname)
     queued = rng.choice([False, True] + (['model'] if asy else []))
@@ -160,6 +168,7 @@ def gen(rng, i, tier):
     rng.shuffle(slots)
     ci = 0
     tok = 100
+    copied = False     # graph classes: a copy has no graph for removed models, their stale helpers raise KeyError
     for sl in slots:
         if sl == 'cfg':
             o = cfg[ci]
@@ -173,7 +182,7 @@ def gen(rng, i, tier):
         x = rng.random()
         tok += 1
         if x < 0.42:
-            if reg and rng.random() < 0.8 or queued == 'model':
+            if reg and rng.random() < 0.8 or queued == 'model' or (gr and copied):
                 if not reg:
                     continue
                 mm = rng.choice(reg)
@@ -201,6 +210,13 @@ def gen(rng, i, tier):
             hist.append(['dispatch', e, tok])
         elif x < 0.84:
             mm = rng.randrange(nuniv)
+            if gr and copied:
+                # after a copy a removed model has no graph any more; re-adding it (refused: stale get_graph) would
+                # leave it registered without graph
+                ok_ = [x_ for x_ in range(nuniv) if x_ in reg or x_ not in ever]
+                if not ok_:
+                    continue
+                mm = rng.choice(ok_)
             y = rng.random()
             if y < 0.55:
                 ini = None
@@ -213,6 +229,8 @@ def gen(rng, i, tier):
                 ms = [mm] + [rng.randrange(nuniv) for _ in range(rng.randint(1, 2))]
                 if rng.random() < 0.35:
                     ms.insert(rng.randint(0, len(ms)), rng.choice(ms))
+                if gr and copied:
+                    ms = [x_ for x_ in ms if x_ in reg or x_ not in ever]
                 if gr:
                     # graph classes refuse an unregistered object that still has get_graph and then leave the rest of
                     # the list registered without graph: at most one such object, at the end of the list
@@ -231,6 +249,10 @@ def gen(rng, i, tier):
                 ever.add(mm)
                 if mm not in reg and (ini is None or ini in known_states):
                     reg.append(mm)
+        elif x >= 0.97 and queued != 'model':
+            # the machine and all model objects are replaced by a pickle round trip (0) / a deep copy (1)
+            hist.append(['copy', rng.randrange(2)])
+            copied = True
         else:
             if not reg:
                 continue
@@ -242,6 +264,26 @@ def gen(rng, i, tier):
     m0['events'] = []
     return dict(kind=0, cls=cname, queued=queued, machine=m0, init=init, env=env, nuniv=nuniv, self_id=self_id,
                 ctor_models=ctor_models, ctor_trans=ctor_trans, history=hist, malformed=malformed, falsy=falsy)
+
+
+def gen_own(rng, i, tier):
+    """hierarchical machine (nested, parallel and compound states with initial children; states named by Enum
+    members whose names repeat on every level, or by strings) and models added later with their OWN initial state"""
+    import hsm
+    c = hsm.gen_case(rng, hist_len=1)
+    cname = ['HierarchicalMachine', 'LockedHierarchicalMachine', 'HierarchicalGraphMachine',
+             'LockedHierarchicalGraphMachine', 'HierarchicalAsyncMachine', 'HierarchicalAsyncGraphMachine'][(i // 16) % 6]
+    paths = [p for p, _ in hsm.all_defs(c['machine'])]
+    adds = []
+    for mm in range(1, rng.randint(3, 6)):
+        x = rng.random()
+        who = mm if rng.random() < 0.85 else rng.randrange(0, mm)       # now and then a registered model again
+        if x < 0.2:
+            adds.append([who, None, 0])
+        else:
+            adds.append([who, rng.choice(paths), rng.randrange(2)])       # 0: Enum member / 1: path string
+    return dict(kind=3, cls=cname, machine=c['machine'], env=c['env'], init=c['init'], enum=rng.choice([1, 1, 0]),
+                adds=adds)
 
 
 def gen_queue(rng, i, tier):
@@ -352,10 +394,16 @@ def enc_op(o):
         return [3, o[1], flat.enc_trans(o[2])]
     if k == 'trigger':
         return [4, o[1], bool(o[2]), o[3], o[4]]
+    if k == 'copy':
+        return [7]
     return [5, o[1], o[2]]
 
 
 def enc(case):
+    if case['kind'] == 3:
+        import hsm
+        return [3, hsm.enc_hmachine(case['machine']), list(case['init']),
+                [[0, []]] + [[m, opt(p, list)] for m, p, _ in case['adds']]]
     if case['kind'] == 2:
         import c05
         return [2] + c05.enc(case)
@@ -391,7 +439,7 @@ def _removes_registered_only(case):
 
 
 def in_envelope(case):
-    if case['kind'] in (1, 2):
+    if case['kind'] in (1, 2, 3):
         return True
     return not case.get('malformed', False) and _removes_registered_only(case)
 
@@ -405,6 +453,10 @@ def canon(case, obs):
     """model side: blocks -> flat item list (per-model results of a dispatch are not observable), helper tables
     sorted; implementation side is produced in that form"""
     if isinstance(obs, dict) or not isinstance(obs, list) or not obs:
+        return obs
+    if case['kind'] == 3:
+        if isinstance(obs, list) and obs and obs[0] == 3:
+            return [3, obs[1]]
         return obs
     if case['kind'] == 2:
         import c05
@@ -492,6 +544,8 @@ def _impl_multi(case):
         return impl_two(case)
     if case['kind'] == 2:
         return impl_queue_lists(case)
+    if case['kind'] == 3:
+        return impl_own(case)
     tr = flat._import_transitions()
     cname = case['cls']
     cls = flat.get_class(cname)
@@ -606,6 +660,19 @@ def _impl_multi(case):
                 r = machine.add_transition(**trans_kw(o[1], o[2]))
                 if self_id is not None:
                     install(machine)
+            elif k == 'copy':
+                # strip the recorders (closures), copy machine + every object of the universe together, continue on
+                # the copy: same models, states, helpers and tables (keys = the ids of the copied objects)
+                for mod in objs:
+                    for name, _, _ in cbnames:
+                        vars(mod).pop(name, None)
+                blob = (machine, list(objs))
+                machine, new_objs = pickle.loads(pickle.dumps(blob)) if o[1] == 0 else copy.deepcopy(blob)
+                objs[:] = new_objs
+                world.model_ids = {id(x): j for j, x in enumerate(objs)}
+                for mod in objs:
+                    install(mod)
+                r = None
             elif k == 'trigger':
                 tok = flat.Token(o[4])
                 mod = objs[o[1]]
@@ -635,6 +702,42 @@ def _impl_multi(case):
             order_ok = 0          # the task table must be empty between calls
         out.append(dict(items=world.items, result=res, world=observe(), order_ok=order_ok))
     return [1, w0, out]
+
+
+def impl_own(case):
+    import hsm
+    flat._import_transitions()
+    hsm.CUR['sep'] = hsm.SEP
+    world = flat.World(case['env'], case['machine']['send'])
+    world.perform = lambda a: None
+    cname = case['cls']
+    cls = flat.get_class(cname)
+    if case['enum']:
+        machine, first = hsm.build_hsm_enum(case, world, cls, extra_kwargs=flat.class_kwargs(cname))
+        names = world.enum_names
+        forest = lambda mod: names.forest(mod.state)                   # noqa
+        ref = lambda p, as_str: (names.label_path(p) if as_str else names.member[tuple(p)])   # noqa
+    else:
+        machine, first = hsm.build_hsm(case, world, cls, extra_kwargs=flat.class_kwargs(cname))
+        forest = hsm.state_forest
+        ref = lambda p, as_str: hsm.sname(p)                               # noqa
+    world.current_model = first
+    objs = {0: first}
+    out = [[[0, forest(first)]]]
+    for who, p, as_str in case['adds']:
+        if who not in objs:
+            objs[who] = Obj() if who % 3 else FalsyObj()
+        try:
+            machine.add_model(objs[who], initial=None if p is None else ref(list(p), as_str))
+        except CaseTimeout:
+            raise
+        except BaseException as ex:  # noqa
+            out.append([[99, flat.classify_exc(ex)]])
+            continue
+        reg = [k for k in sorted(objs) if any(objs[k] is x for x in machine.models)]
+        order = [k for x in machine.models for k in objs if objs[k] is x]
+        out.append([[k, forest(objs[k])] for k in order])
+    return [3, out]
 
 
 def impl_queue_lists(case):
@@ -793,6 +896,8 @@ def oracle(case, obs):
             if own != [want]:
                 return 'two_machines: helper %s requested by machine %d is bound to %r' % (py_name(nm), want, own)
         return None
+    if case['kind'] == 3:
+        return None          # own initial states: compared with Multi.own_run (C10_own_initial)
     if case['kind'] == 2 or obs[0] != 1:
         return None          # the queued stream is compared with Queue.v (C05_remove_exact) only
     lk, gr, hs, asy = class_flags(case['cls'])
@@ -831,6 +936,11 @@ def oracle(case, obs):
                 return 'add_twice: adding a registered model raised or returned a value (%r)' % (res,)
         if len(models) != len(set(models)):
             return 'a model is registered twice (%r)' % (models,)
+        if k == 'copy' and (res != [0, 2] or (models, per, queues) != (pm, pper, prev[4])
+                            or any(g not in prev[3] and g not in models for g in graphs)
+                            or any(g not in prev[2] and g not in models for g in ctx)
+                            or (lk and any(g not in ctx for g in models))):
+            return 'copy: the pickled / deep-copied machine differs from the original (models, states, helpers, tables)'
         if k == 'add_models':
             for j in set(o[1]):
                 if j in pm and per[j] != pper[j]:
@@ -884,6 +994,8 @@ def nontrivial(case, obs):
         return False
     if case['kind'] == 1:
         return obs[0] == 2 and _two_overlap(case)
+    if case['kind'] == 3:
+        return any(p is not None and len(p) >= 2 for _, p, _ in case['adds'])
     if case['kind'] == 2:
         import c05
         return c05.nontrivial(case, obs)
@@ -910,6 +1022,13 @@ def stats(case, obs, dist):
             inc('two_overlapping_states')
         if not _two_in_scope(case):
             inc('two_overlapping_events')
+        return
+    if case['kind'] == 3:
+        inc('own_initial_cases')
+        inc('own_' + case['cls'])
+        inc('own_enum_%s' % case['enum'])
+        for _, p, as_str in case['adds']:
+            inc('own_add_%s' % ('machine_initial' if p is None else ('nested' if len(p) >= 2 else 'top_level')))
         return
     if case['kind'] == 2:
         inc('queue_stream_cases')
@@ -951,6 +1070,12 @@ def stats(case, obs, dist):
 
 
 def shrink_candidates(case):
+    if case['kind'] == 3:
+        for i in range(len(case['adds'])):
+            c = copy.deepcopy(case)
+            del c['adds'][i]
+            yield c
+        return
     if case['kind'] == 2:
         import c05
         for c in c05.shrink_candidates(case):
@@ -988,12 +1113,12 @@ def shrink_candidates(case):
 
 
 # ------------------------------------------------------------------ extra checks
-def _gc_probe(cname, queued, second_machine=False):
-    """a removed model must be collectable although the machine lives on"""
-    tr = flat._import_transitions()
+def _gc_probe(cname, queued, restore=None):
+    """a removed model must be collectable although the machine lives on — also when the machine (with its models)
+    is a pickle round trip / a deep copy of another machine"""
+    flat._import_transitions()
     cls = flat.get_class(cname)
-    asy = 'Async' in cname
-    a, b = Obj(), Obj()
+    a, b = Obj(), FalsyObj()
     kw = dict(flat.class_kwargs(cname))
     m = cls(model=[a, b], states=['A', 'B', 'C'], initial='A', queued=queued,
             transitions=[['go', 'A', 'B'], ['back', 'B', 'A']], **kw)
@@ -1004,6 +1129,13 @@ def _gc_probe(cname, queued, second_machine=False):
     m.add_transition('again', 'C', 'A')
     m.add_states('D')
     _run(b.again())
+    if restore == 'pickle':
+        m, (a, b, late) = pickle.loads(pickle.dumps((m, (a, b, late))))
+    elif restore == 'deepcopy':
+        m, (a, b, late) = copy.deepcopy((m, (a, b, late)))
+    if restore:
+        gc.collect()
+        assert list(m.models) == [a, b, late] and (a.state, b.state, late.state) == ('A', 'A', 'C')
     dead = []
     pool = dict(a=a, late=late)
     del a, late
@@ -1019,21 +1151,36 @@ def _gc_probe(cname, queued, second_machine=False):
 
 
 def extra_checks(tier, seed):
+    gc.collect()
+    gc.freeze()         # the driver holds all cases and observations: keep them out of the probes' collections
+    try:
+        return _extra_checks(tier, seed)
+    finally:
+        gc.unfreeze()
+
+
+def _extra_checks(tier, seed):
     out = []
     detail = {}
     bad = None
     for cname in CLASSES:
         for queued in [False, True] + (['model'] if 'Async' in cname else []):
-            try:
-                ok, d = _gc_probe(cname, queued)
-            except BaseException as ex:  # noqa
-                ok, d = False, dict(error='%s: %s' % (type(ex).__name__, ex))
-            detail['%s/queued=%s' % (cname, queued)] = d
-            if not ok and bad is None:
-                bad = dict(kind='oracle', check='gc_after_remove', cls=cname, queued=queued, observed=d,
-                           failing_clause='a removed model is not garbage-collectable (weakref alive after '
-                                          'remove_model + gc.collect()) or the remaining model is disturbed')
+            for restore in (None, 'pickle', 'deepcopy'):
+                if restore and queued == 'model':
+                    continue        # see ASSUMPTIONS: copies of per-model-queue machines keep the old ids as keys
+                try:
+                    ok, d = _gc_probe(cname, queued, restore)
+                except BaseException as ex:  # noqa
+                    ok, d = False, dict(error='%s: %s' % (type(ex).__name__, ex))
+                detail['%s/queued=%s/%s' % (cname, queued, restore or 'original')] = d
+                if not ok and bad is None:
+                    bad = dict(kind='oracle', check='gc_after_remove', cls=cname, queued=queued, machine=restore or 'original',
+                               observed=d,
+                               failing_clause='a removed model is not garbage-collectable (weakref alive after '
+                                              'remove_model + gc.collect()) or the remaining model is disturbed'
+                                              + (' — on a %s copy of the machine' % restore if restore else ''))
     out.append(('gc_after_remove', bad is None,
                 dict(classes=len(CLASSES), configurations=len(detail), all_collected=bad is None,
+                     machines='original, pickle.loads(pickle.dumps(..)), copy.deepcopy(..)',
                      sample=dict(list(detail.items())[:3])), bad or {}))
     return out
